@@ -1,5 +1,5 @@
 """Registry: which suites, oracles and trusted-base notes belong to which property."""
-from suites import gens, system, tower, timing
+from suites import gens, system, tower, timing, parsing
 
 
 def c01_suites(tier):
@@ -75,6 +75,10 @@ def c10_suites(tier):
     return [timing.ProgressSuite(), system.RandomSessionSuite(), system.WaitSuite(), system.StartStopSuite()]
 
 
+def c18_suites(tier):
+    return [parsing.ParseSuite(), gens.PNStringSuite(), gens.StartRowSuite()]
+
+
 PROPS = {
     "C01": {"suites": c01_suites},
     "C02": {"suites": c02_suites},
@@ -93,5 +97,6 @@ PROPS = {
     "C15": {"suites": c15_suites},
     "C16": {"suites": c16_suites},
     "C17": {"suites": c17_suites},
+    "C18": {"suites": c18_suites},
     "C20": {"suites": c20_suites},
 }
